@@ -410,7 +410,10 @@ func (w *storeWorld) readBuffer(op *storeOp, b buffer.Buffer, size int) (got []b
 			n, e := r.Read(p)
 			got = append(got, p[:n]...)
 			if e == io.EOF {
-				r.Close()
+				// Close() reports the error of an attached background task
+				if cerr := r.Close(); cerr != nil {
+					return got, false, cerr
+				}
 				return got, true, nil
 			}
 			if e != nil {
